@@ -47,3 +47,19 @@ package strutil
 //@ func SliceContain
 //@   modifies nothing
 //@   attr assumed generic
+
+// ---- C09: environment variable names (Underscore) ----
+// snake-case alphabet: with upper set every byte of the result is an upper-case letter, a digit or '_' (lower-case
+// letters otherwise); the result never starts with '_' and is no longer than twice the input
+//@ pure snakeByte(c int, upper bool) bool = c == '_' || ('0' <= c && c <= '9') || ite(upper, 'A' <= c && c <= 'Z', 'a' <= c && c <= 'z')
+//@ func Underscore
+//@   modifies nothing
+//@   ensures alphabet: forall j int {result[j]} :: 0 <= j && j < len(result) ==> snakeByte(result[j], upper)
+//@   ensures head: len(result) > 0 ==> result[0] != '_'
+//@   ensures size: len(result) <= 2 * len(s)
+//@   loop 1
+//@     invariant 0 <= i && i <= len(s) && 0 <= last && last <= 3 && len(buf) <= 2 * i
+//@     invariant buf == nil || fresh(arr(buf))
+//@     invariant forall j int {buf[j]} :: 0 <= j && j < len(buf) ==> snakeByte(buf[j], upper)
+//@     invariant len(buf) > 0 ==> buf[0] != '_'
+//@     decreases len(s) - i
